@@ -44,6 +44,20 @@ CLAIMED = {
                 "makes a symmetric drift of reader and writer visible.",
         "design": "4/C06",
     },
+    "C10": {
+        "rules": "R-SEQ, R-LAYOUT, R-NOPAD, R-MUSTCALL, R-INDEX(strength), R-NARROW, R-INIT, R-ORDER, R-CONST",
+        "text": "Static analysis of the PRT serialiser pair: ArtFile::Write, ArtFile::Read and spec/prt.seq.json agree token "
+                "for token (including both optional-data conditionals on their own flags and the four optional bytes in "
+                "order); every sprite record and tag has the documented layout; every returned ArtFile has passed the "
+                "tag, palette-header, image-metadata and count validations, the writer validates before its first write "
+                "and refuses a frame whose 7-bit count differs from its layer list; the metadata validation is strict "
+                "(palette index < palette count, scan line = width rounded up to 4); red/blue are exchanged exactly once "
+                "per side, on a by-value copy when writing; counts are range-checked before narrowing; optional frame "
+                "bytes are definitely assigned; Write is callable on const objects.",
+        "note": "Declined: equality of the re-read structure and byte stability (values); the arithmetic inside "
+                "VerifyCountsMatchHeader / CountFrames.",
+        "design": "4/C10",
+    },
     "C12": {
         "rules": "R-ATOMIC, R-NOWRAP, R-CURSOR, R-COUNT, R-MUSTCALL, R-SEQ(helper lengths)",
         "text": "Static analysis (clang AST + CFG must-dataflow) of the memory and slice readers: every bounds guard "
